@@ -27,7 +27,9 @@ LayoutDiscipline == \A r \in Regions : LayoutOk(r)
 Kinds == {"cert_ca", "cert_ee", "crl", "mft", "roa", "aspa", "csr", "idcert", "sigmsg"}
 SerialClasses == {"zero", "one", "highbit", "twenty"}     \* the number 0; 1 octet; 2 octets with the top bit set; full 20 octets
 TimeClasses == {"utc", "gen", "cross1950", "cross2050", "far"}    \* window inside 1950-2049, after 2050, across either boundary, years 1 - 9999
-ResShapes == {"one", "many", "ends", "inherit"}
+\* "woven": five touching blocks given in the order 1st, 3rd, 5th, 2nd, 4th (and seven in the order 7th .. 1st with the even ones
+\* last) - the resource collectors have to fold a run of several neighbours after sorting; the object must say one block
+ResShapes == {"one", "many", "ends", "woven", "inherit"}
 UriForms == {"dir", "nodir"}                              \* repository URI with / without trailing slash
 Items == 1..4
 Feeds == {"exact", "lazy"}                                \* the list handed to the builder: a slice / an iterator that does not know its length
